@@ -34,7 +34,9 @@ ASSUMPTIONS = [
     "core relation: ||core - X x_n U_n'||^2 <= 1e-20 ||X||^2 (einsum reference)",
     "error bound (automatic ranks): ||X - T||^2 <= tol^2 ||X||^2 (1 + 1e-9) + 1e-26 ||X||^2 (rounding floor of the reconstruction)",
     "tucker_als fit: |((1-fit)||X||)^2 - ||X-T||^2| <= 1e-10 ||X||^2; normresidual likewise; fit = 1 - normresidual/||X|| to 1e-12",
-    "tucker_als monotone: ||X-T_{k+1}||^2 <= ||X-T_k||^2 + 1e-9 ||X||^2 over runs truncated at k sweeps from the same start",
+    "tucker_als monotone: ||X-T_{k+1}||^2 <= ||X-T_k||^2 + 1e-9 ||X||^2 over runs truncated at k sweeps from the same start "
+    "(1e-7 when some r_n < n_n - 1: nvecs then uses ARPACK, whose start vector comes from an unseedable process-wide stream, so "
+    "separate runs agree only up to eps/eigen-gap; the rerun-at-reported-iters residual comparison uses 1e-6 there, 1e-9 otherwise)",
     "tucker_als rank vectors with r_n > prod_{m != n} r_m or noise-free data of lower multilinear rank than requested "
     "(degenerate: extra columns are arbitrary null-space vectors picked by ARPACK's internal random start, so two runs differ) are generated at a reduced rate and judged only by the per-run "
     "clauses (structure, reported fit, iteration limit, printed fits of one run non-decreasing)",
@@ -265,7 +267,7 @@ def _hosvd_body(ctx, case):
         ctx.check(text.strip() == "", "silent-when-verbosity-not-positive", text[:80])
 
 
-@cell("C10/hosvd/generated", strategy=_hosvd_case, quick=1500, thorough=16000, shards=(4, 16))
+@cell("C10/hosvd/generated", strategy=_hosvd_case, quick=4000, thorough=60000, shards=(4, 16))
 def hosvd_generated(ctx, case):
     _hosvd_body(ctx, case)
 
@@ -416,7 +418,7 @@ def _tucker_reported(ctx, out, A, D, tag):
     return err2
 
 
-@cell("C10/tucker_als/generated", strategy=_tucker_case, quick=500, thorough=5000, shards=(4, 16))
+@cell("C10/tucker_als/generated", strategy=_tucker_case, quick=1200, thorough=20000, shards=(4, 16))
 def tucker_als_generated(ctx, case):
     shape = [int(s) for s in case["shape"]]
     N = len(shape)
@@ -439,6 +441,10 @@ def tucker_als_generated(ctx, case):
               "has-singleton" if 1 in shape else "no-singleton",
               "dimorder-default" if case["dimorder"] is None else ("dimorder-identity" if dimorder == sorted(dimorder)
                                                                    else "dimorder-permuted"))
+    # tensor.nvecs goes through ARPACK (start vector from a process-wide Fortran stream that cannot be seeded) whenever
+    # r_n < n_n - 1; two runs then agree only up to eps / eigen-gap, so the cross-run clauses get a wider slack
+    arpack = any(r < n - 1 for r, n in zip(rank, shape))
+    ctx.label("arpack-path" if arpack else "dense-eig-path")
     with ctx.sut("tucker_als"):
         res, text = _tucker_run(X, case, init, maxiters, stoptol, printitn)
     ctx.require(isinstance(res, tuple) and len(res) == 3, "returns-triple")
@@ -475,7 +481,7 @@ def tucker_als_generated(ctx, case):
         if k == iters + 1 and feasible:
             # compared through the residual (well conditioned) and not through the model: a near-degenerate eigen-gap makes
             # the leading subspace itself sensitive to ARPACK's random start while the captured energy is not
-            ctx.check(abs(errs[-1] - err2) <= 1e-9 * n2, "rerun-truncated-at-reported-iters-reproduces-fit",
+            ctx.check(abs(errs[-1] - err2) <= (1e-6 if arpack else 1e-9) * n2, "rerun-truncated-at-reported-iters-reproduces-fit",
                       f"||X-T||^2 = {err2!r}, rerun {errs[-1]!r}, ||X||^2 = {n2!r}")
     # one fully printed run: the fit of a single run never decreases (7 printed digits -> slack 2e-6)
     with ctx.sut("tucker_als-printing"):
@@ -490,7 +496,7 @@ def tucker_als_generated(ctx, case):
     if not feasible:
         return
     for k in range(1, len(errs)):
-        ctx.check(errs[k] <= errs[k - 1] + 1e-9 * n2, "fit-never-decreases",
+        ctx.check(errs[k] <= errs[k - 1] + (1e-7 if arpack else 1e-9) * n2, "fit-never-decreases",
                   f"||X-T||^2 after {k} sweeps {errs[k - 1]!r}, after {k + 1} sweeps {errs[k]!r}")
     if printitn > 0 and not bad:
         idx = [i for i, _, _ in its]
